@@ -266,6 +266,10 @@ func (t *Trimmer) traceExtendMethod(fathers []*parser.Service, svc *parser.Servi
 			funcName := father.Name + "." + function.Name
 			for i, method := range t.trimMethods {
 				if ok, _ := method.MatchString(funcName); ok {
+					// same rule as in markService: "S.get" does not select "S.getAll"
+					if funcName != method.String() && strings.HasPrefix(funcName, method.String()) {
+						continue
+					}
 					currentMap[svc] = struct{}{}
 					t.markFunction(function, ast, filename)
 					t.trimMethodValid[i] = true
